@@ -78,12 +78,12 @@ Definition dt_set_rel (F : opts) (a b : atom) : bool :=
 (* ignore_nan_inequality: two nan objects (the same nan object is covered by atom_eqb) *)
 Definition nan_rel (F : opts) (a b : atom) : bool := o_nan F && is_nan a && is_nan b.
 (* use_enum_value at a leaf: an Enum member against its value, or against a member of ANOTHER class with the same
-   value.  Excluded: a value that is None (finding C11-ENUM-NONE: None against a member whose value is None IS
-   reported, the None test of _diff comes first); two members of one class (they go through _diff_enum, which
-   reports the .name child). *)
+   value - None included since c9e614d (finding C11-ENUM-NONE, fixed: the None test of _diff reports only when
+   `t1 is not t2`, and None against a member whose value is None unwraps to None on both sides).
+   Excluded: two members of one class (they go through _diff_enum, which reports the .name child). *)
 Definition enum_rel (F : opts) (a b : atom) : bool :=
   o_enum F && negb (ty_eqb (atom_ty a) (atom_ty b)) && (is_enum a || is_enum b)
-  && atom_eqb (unwrap F a) (unwrap F b) && negb (is_none (unwrap F a)).
+  && atom_eqb (unwrap F a) (unwrap F b).
 
 (* FULL STRENGTH (the property as stated): altered in any aspect an enabled option ignores *)
 Definition altA (F : opts) (a b : atom) : bool :=
@@ -361,7 +361,7 @@ Proof.
   - destruct Hty as [Hty|Hty]; [discriminate|]. rewrite Hty. cbn [negb andb].
     assert (unwrap F a = a) as Ua by (destruct a; try reflexivity; discriminate).
     assert (unwrap F b = b) as Ub by (destruct b; try reflexivity; discriminate).
-    rewrite Ua, Ub, Oa, Ob, Na, andb_false_r. reflexivity.
+    rewrite Ua, Ub, Oa, Ob, Na. cbn [orb]. rewrite andb_false_r. reflexivity.
 Qed.
 
 Lemma leafR_refl : forall a p1 p2, leaf_ok F a = true -> leafR udiff F a a p1 p2 = Ok [].
@@ -396,13 +396,14 @@ Proof.
   apply orb_true_iff in H. destruct H as [H|H].
   2:{ (* an Enum member and its value *)
       unfold enum_rel in H.
-      apply andb_true_iff in H. destruct H as [H Hnone]. apply andb_true_iff in H. destruct H as [H Heq].
+      apply andb_true_iff in H. destruct H as [H Heq].
       apply andb_true_iff in H. destruct H as [H Hen]. apply andb_true_iff in H. destruct H as [Hoe Hty].
-      apply negb_true_iff in Hty. apply negb_true_iff in Hnone. apply atom_eqb_eq in Heq.
+      apply negb_true_iff in Hty. apply atom_eqb_eq in Heq.
       rewrite leafR_core_ty by exact Hty. unfold leaf_core.
       destruct (same_obj a b) eqn:Es; [apply same_obj_ty in Es; congruence|].
       destruct (excluded F (atom_ty a) || excluded F (atom_ty b)); [reflexivity|].
-      rewrite Hty, Hoe, Hen. cbn [andb negb]. rewrite andb_false_r. rewrite <- Heq, Hnone. cbn [orb].
+      rewrite Hty, Hoe, Hen. cbn [andb negb]. rewrite andb_false_r. rewrite <- Heq.
+      destruct (is_none (unwrap F a)) eqn:Hnone; cbn [orb andb]; [reflexivity|].
       assert (exists v, unwrap F a = atom_of_e v) as [v Ev].
       { destruct a; cbn [is_enum orb] in Hen.
         13:{ exists v. cbn [unwrap]. rewrite Hoe. reflexivity. }
@@ -476,7 +477,7 @@ Proof.
     unfold altL in H.
     apply orb_true_iff in H. destruct H as [H|H].
     2:{ exfalso. unfold enum_rel in H. rewrite K2, K5 in H. cbn [orb] in H.
-        apply andb_true_iff in H. destruct H as [H _]. apply andb_true_iff in H. destruct H as [H Heq].
+        apply andb_true_iff in H. destruct H as [H Heq].
         apply andb_true_iff in H. destruct H as [H Hen]. apply andb_true_iff in H. destruct H as [Hoe _].
         destruct b; try discriminate. cbn [unwrap] in Heq. rewrite Hoe, K6 in Heq. discriminate. }
     apply orb_true_iff in H. destruct H as [H|H].
